@@ -19,7 +19,10 @@ namespace std { template <> struct hash<Color> { size_t operator()(Color c) cons
 template <typename T> struct OneBit { size_t operator()(const T & v) const { return std::hash<T>()(v) & 1u; } };
 template <typename T> struct Constant { size_t operator()(const T &) const { return 7; } };
 
-template <typename T> struct TypeTag;
+// the primary template accepts ANY type (an opaque object): storages and digesters built on it are constructible from
+// whatever the library hands them, like std::any - a library that wraps the wrong object then shows as a wrong value,
+// not as a compile error of the harness
+template <typename T> struct TypeTag { enum { value = 9 }; static std::string repr(const T &) { return "?"; } };
 template <> struct TypeTag<int> { enum { value = 1 }; static std::string repr(int v) { return std::to_string(v); } };
 template <> struct TypeTag<long> { enum { value = 2 }; static std::string repr(long v) { return std::to_string(v); } };
 template <> struct TypeTag<char> { enum { value = 3 }; static std::string repr(char v) { return std::to_string((int)v); } };
